@@ -12,8 +12,9 @@ a header common to both chains, a reorganisation announces exactly the headers o
 chain above it, lowest first, as a linked chain (`C07_reorg_shape`); applying ANY submission's
 announcement to the best chain before it gives the best chain after it (`C07_stream_step`); and
 over ANY finite history a subscriber that applies everything announced holds exactly the chain the
-repository reports (`C07_stream_reconstructs`). Histories with Clean/Save/Load/marking, and the
-internal branch-update error, are carried by the correspondence + monitor (the monitor replays
+repository reports (`C07_stream_reconstructs`); the branch update itself cannot fail there
+(`C07_branch_update_never_fails`). Histories with Clean/Save/Load/marking are carried by the
+correspondence + monitor (the monitor replays
 `applyStream` on the implementation's stream after every submission) — `_partial` there.
 -/
 import BRV.Proofs.RepoBasics
@@ -124,15 +125,14 @@ theorem C07_reorg_announced_in_chain (r : Repo) (hs : StreamWF r) (r2 : Repo) (e
   exact List.mem_append_right _ he
 
 /-- **C07 (applying the stream yields the chain the repository reports after the submission).**
-    For ANY submitted header and any outcome other than the internal branch-update error. -/
+    For ANY submitted header and any outcome. -/
 theorem C07_stream_step (r : Repo) (h : Hdr) (ok : Bool) (hs : StreamWF r)
     (hnc : ∀ pb ph lst, precheck r h ok = .inr (pb, ph, lst) →
       Int.tmod ((r.br pb).height + 1) (Facts.autoCleanModulus : Int) ≠ 0)
-    (hv : ∀ e, (processHeader r h ok).2.verdict ≠ .err e)
     (cOld cNew : List Hdr) (hold : IsChain r.arena r.longest cOld)
     (hnew : IsChain (processHeader r h ok).1.arena (processHeader r h ok).1.longest cNew) :
     Spec.applyStream cOld (processHeader r h ok).2.events = cNew :=
-  stream_step r h ok hs hnc hv cOld cNew hold hnew
+  stream_step r h ok hs hnc cOld cNew hold hnew
 
 /-- **C07 (submission histories).** From a well-formed state (e.g. genesis only), after ANY finite
     history of submissions — extensions, forks, reorganisations to child, parent, sibling and
@@ -140,9 +140,17 @@ theorem C07_stream_step (r : Repo) (h : Hdr) (ok : Bool) (hs : StreamWF r)
     refusals — the subscriber's chain (the initial best chain with everything announced applied, in
     order) is exactly the best chain of the repository. -/
 theorem C07_stream_reconstructs (r : Repo) (hs : List (Hdr × Bool)) (hwf : StreamWF r)
-    (hlv : r.longest < r.arena.length) (hq : StreamQuiet r hs) (c0 : List Hdr) (h0 : IsChain r.arena r.longest c0) :
+    (hlv : r.longest < r.arena.length) (hq : NoAutoClean r hs) (c0 : List Hdr) (h0 : IsChain r.arena r.longest c0) :
     IsChain (submitAll r hs).arena (submitAll r hs).longest (Spec.applyStream c0 (streamOf r hs)) :=
   stream_history r hs hwf hlv hq c0 h0
+
+/-- **C07 (the branch update cannot fail).** In every state reached by submissions from genesis the
+    reselection of the most-work branch — `Longest()`, `IntersectHash`, `Find` of the intersect and the
+    collection of the headers above it — never returns the internal error or crashes, so every
+    reorganisation is announced completely. -/
+theorem C07_branch_update_never_fails (r : Repo) (hs : StreamWF r) (hlv : r.longest < r.arena.length)
+    (x : Repo × StepOut) : reselect r ≠ .error x :=
+  reselect_never_fails r hs hlv x
 
 /-- the invariants hold in every state reached by submissions. -/
 theorem C07_wf_submissions (r : Repo) (hs : List (Hdr × Bool)) (hwf : StreamWF r) (hq : NoAutoClean r hs) :
@@ -168,11 +176,8 @@ def exH2 : Hdr := { id := 2, prev := 0, bits := 0x1c00ffff, time := 2 }
 
 example : streamOf genesisRepo [(exH1, true), (exH2, true)] = [exH1, exH2] := by decide
 
-example : StreamQuiet genesisRepo [(exH1, true), (exH2, true)] := by
-  have v1 : (processHeader genesisRepo exH1 true).2.verdict = .ok := by decide
-  have v2 : (processHeader (processHeader genesisRepo exH1 true).1 exH2 true).2.verdict = .ok := by decide
-  refine ⟨?_, ?_, ?_, ?_, trivial⟩
-  · intro e he; rw [v1] at he; cases he
+example : NoAutoClean genesisRepo [(exH1, true), (exH2, true)] := by
+  refine ⟨?_, ?_, trivial⟩
   · intro pb ph lst hp
     have : precheck genesisRepo exH1 true
         = .inr (0, 0, { hdr := { id := 0, prev := 99, bits := 0x1d00ffff, time := 1 }, work := 4295032833 }) := by decide
@@ -180,7 +185,6 @@ example : StreamQuiet genesisRepo [(exH1, true), (exH2, true)] := by
     simp only [Sum.inr.injEq, Prod.mk.injEq] at hp
     obtain ⟨rfl, rfl, rfl⟩ := hp
     decide
-  · intro e he; rw [v2] at he; cases he
   · intro pb ph lst hp
     have : precheck (processHeader genesisRepo exH1 true).1 exH2 true
         = .inr (0, 0, { hdr := { id := 1, prev := 0, bits := 0x1d00ffff, time := 2 }, work := 8590065666 }) := by decide
